@@ -1443,4 +1443,10 @@ class Interpreter : public EvaluatorInterface {
     int get_current_executing_task_id() const {
         return current_executing_task_id_;
     }
+#ifdef CB_VERIF
+  public:
+    size_t cbv_defer_depth() const { return defer_stacks_.size(); }
+    size_t cbv_dtor_depth() const { return destructor_stacks_.size(); }
+    size_t cbv_scope_depth() const { return scope_stack.size(); }
+#endif
 };
